@@ -13,6 +13,15 @@ def main():
     a = ap.parse_args()
     seed = int(os.environ.get("VERIF_SEED", "0") or 0)
     from . import core
+    if os.environ.get("ZCV_COVERAGE", "1" if a.tier == "thorough" else "0") == "1" and not a.replay:
+        try:
+            import coverage
+            os.environ.setdefault("COVERAGE_CORE", "sysmon")
+            cov = coverage.Coverage(data_file=None, source=[os.path.join(core.REPO, "src", "ZConfig")], messages=False)
+            cov.start()
+            core._coverage = cov
+        except Exception:
+            core._coverage = None
     mod = importlib.import_module("harness.zcv.props." + a.prop.lower())
     ctx = core.Ctx(a.prop, a.tier, seed)
     if a.replay:
